@@ -258,6 +258,7 @@ var (
 	spawned   atomic.Bool
 	mapAccs   = map[uintptr][]*mapRec{}
 	mapRaces  []string
+	mapChecks int
 	mapRaceOf = map[string]bool{}
 )
 
@@ -274,6 +275,7 @@ func MapAccess(m interface{}, name string, write bool, site string) {
 	locked := g.locks > 0
 	mu.Lock()
 	defer mu.Unlock()
+	mapChecks++
 	var mine *mapRec
 	kind := 0
 	if !locked {
@@ -425,6 +427,8 @@ type Outcome struct {
 	Blocked     []string       `json:"blocked,omitempty"` // at deadlock: names seen but not finished
 	Idle        int            `json:"idle_events"`
 	MapRaces    []string       `json:"map_races,omitempty"` // shared-map discipline violations (see MapAccess)
+	MapChecks   int            `json:"map_checks,omitempty"` // accesses to package-level maps examined
+	MapShared   int            `json:"map_shared,omitempty"` // maps touched by two or more goroutines after start-up
 }
 
 // idle handlers, tried in order when nothing is parked
@@ -742,6 +746,12 @@ func Run(cfg Config, wait func(), sut func()) *Outcome {
 	out.Ticks = ticks.Load()
 	mu.Lock()
 	out.MapRaces = append([]string{}, mapRaces...)
+	out.MapChecks = mapChecks
+	for _, l := range mapAccs {
+		if len(l) > 1 {
+			out.MapShared++
+		}
+	}
 	mu.Unlock()
 	out.TraceHash = fmt.Sprintf("%016x", th.Sum64())
 	out.States = len(states)
